@@ -273,6 +273,124 @@ def read_x(d):
     return vlib.read_out(px)[0] if os.path.exists(px) else {}
 
 
+def hx(b):
+    return b.hex() if b else "-"
+
+
+def hxl(l):
+    return ",".join(hx(x) for x in l)
+
+
+def _rerun_fails(ctx, lines, tag):
+    """run the harness on the given case lines (replay mode) and return the oracle failures"""
+    d = os.path.join(ctx.run_dir, "shrink")
+    shutil.rmtree(d, ignore_errors=True)
+    os.makedirs(d)
+    src = os.path.join(d, "in.tsv")
+    with open(src, "w") as f:
+        f.write("\n".join(lines) + "\n")
+    port = 38000 + (os.getpid() % 400) * 40 + 20
+    rc, out, _ = sh("%s -replay %s -out %s -port %d" % (os.path.join(vlib.BIN, "scansim"), src, d, port), cwd=d, timeout=300)
+    if rc != 0:
+        return None
+    stores, cases = parse_cases(os.path.join(d, "cases.tsv"))
+    impl, _ = vlib.read_out(os.path.join(d, "impl.out"))
+    impl.update(read_x(d))
+    fails, _, _ = oracle(stores, cases, impl)
+    return [x for x in fails if x["name"].rsplit("-", 1)[0] == tag]
+
+
+def shrink_failure(ctx, f, budget=60):
+    """Delta-debug the population of a failing case: drop keys / elements while the same kind of failure remains.
+    Returns the reduced case lines (header + case) or None."""
+    lines = f["case"].get("cases_tsv")
+    if not lines:
+        return None
+    tag = f["name"].rsplit("-", 1)[0]
+    rows = [l.split("\t") for l in lines]
+    case_row = rows[-1]
+    sid = case_row[0].split(".")[0]
+
+    def build(rs):
+        # the engine key dump of the P line is recomputed by the replay
+        return ["\t".join(r[:4] + ["-"] if r[1] == "P" else r) for r in rs]
+
+    base = _rerun_fails(ctx, lines, tag)
+    if not base:
+        return None          # does not reproduce in isolation: keep the original
+    runs = [1]
+
+    def still_fails(rs):
+        if runs[0] >= budget or any(r[1] == "W" and not r[3] for r in rs):
+            return False
+        runs[0] += 1
+        r = _rerun_fails(ctx, build(rs), tag)
+        return bool(r)
+
+    # atoms: (row index, field index, position in the comma list)
+    def atoms(rs):
+        out = []
+        for i, r in enumerate(rs[:-1]):
+            if r[1] == "T" and r[3]:
+                out += [(i, 3, k) for k in range(len(r[3].split(",")))]
+            elif r[1] == "C" and r[6]:
+                out += [(i, 6, k) for k in range(len(r[6].split(",")))]
+            elif r[1] == "W" and r[3]:
+                out += [(i, 3, k) for k in range(len(r[3].split(",")))]
+        return out
+
+    def remove(rs, drop):
+        drop = set(drop)
+        new = []
+        gone_keys = set()
+        for i, r in enumerate(rs):
+            r = list(r)
+            for fi in (3, 6):
+                if (r[1], fi) in (("T", 3), ("C", 6), ("W", 3)):
+                    items = r[fi].split(",") if r[fi] else []
+                    kept = [x for k, x in enumerate(items) if (i, fi, k) not in drop]
+                    if r[1] == "T":
+                        gone_keys |= {x for x in items if x not in kept}
+                    r[fi] = ",".join(kept)
+            new.append(r)
+        # a collection without elements or whose key was dropped disappears together with its key
+        out = []
+        dead = set()
+        for r in new:
+            if r[1] == "C" and (not r[6] or r[5] in gone_keys):
+                dead.add(r[5])
+                continue
+            out.append(r)
+        for r in out:
+            if r[1] == "T" and r[2] in ("hash", "set", "zset") and r[3]:
+                r[3] = ",".join(x for x in r[3].split(",") if x not in dead)
+        for r in out:            # the W line carries one partition id per key: let the harness recompute
+            if r[1] == "W":
+                kv = r[7:8]
+                del r[4:]
+                r += ["", "", ""] + kv
+        return out
+
+    cur = rows
+    chunk = max(1, len(atoms(cur)) // 2)
+    while chunk >= 1 and runs[0] < budget:
+        at = atoms(cur)
+        i = 0
+        progressed = False
+        while i < len(at) and runs[0] < budget:
+            cand = remove(cur, at[i:i + chunk])
+            if still_fails(cand):
+                cur = cand
+                at = atoms(cur)
+                progressed = True
+            else:
+                i += chunk
+        if chunk == 1 and not progressed:
+            break
+        chunk = chunk // 2 if chunk > 1 else (1 if progressed else 0)
+    return build(cur) if cur is not rows else None
+
+
 def run_impl(ctx, sub, args):
     d = os.path.join(ctx.run_dir, sub)
     shutil.rmtree(d, ignore_errors=True)
@@ -365,6 +483,16 @@ def run(ctx):
         attach_replay(fails, stores, cases)
         return fails
 
+    for f in all_fail[:3]:
+        try:
+            small = shrink_failure(ctx, f)
+        except Exception as ex:          # shrinking is best effort
+            small = None
+            ctx.notes.append("shrink failed: %r" % (ex,))
+        if small:
+            f["case"]["cases_tsv_unshrunk_lines"] = len(f["case"]["cases_tsv"])
+            f["case"]["cases_tsv"] = small
+            f["case"]["shrunk"] = True
     mm = [(m[0], (m[1] or "")[:600], (m[2] or "")[:600]) for m in all_mism]
     vlib.standard_verdict(ctx, proofs_ok, mm, all_fail, search_fn=search,
                           corr_name="Scan/Model.v vs rockredis scan range builders + node scan handlers chained by cursor (smx state machine)")
